@@ -131,6 +131,7 @@ pub fn run(a: &Args) {
 		let mut cfg = cfg_for("C04", false);
 		cfg.allow_minconf0 = false;
 		cfg.third_account = si % 2 == 1;
+		cfg.stale_coinbase = true;
 		cfg.steps = 70 + rng.usize(80);
 		let hseed = rng.next();
 		let mut hrng = Rng::new(hseed);
@@ -141,6 +142,9 @@ pub fn run(a: &Args) {
 		}
 		let seen: Vec<BTreeMap<String, (String, u64)>> = h.seen_commits.clone();
 		let flights: Vec<uuid::Uuid> = h.flights.iter().map(|f| f.id).collect();
+		for (k, n) in h.stats.iter().filter(|(k, _)| k.starts_with("op:coinbase-")) {
+			rep.count_n(k, *n);
+		}
 		drop(h);
 		// settle: nothing pending in the pool, everything refreshed
 		let _ = world.mine_n(None, 2);
